@@ -1,0 +1,81 @@
+//go:build verif
+
+package astparser
+
+// Contracts for the deductive verifier in /verif (comment-only file, build tag verif).
+
+//@ spec inputInv(in *ast.Input) bool = in != nil && 0 <= in.InputPosition && in.InputPosition <= in.Length && in.Length == len(in.RawBytes) && in.Length < 4294967296
+//@ spec tkInv(t *Tokenizer) bool = t != nil && t.lexer != nil && 0 - 1 <= t.currentToken && t.currentToken < t.maxTokens + 1 && 0 <= t.maxTokens && t.maxTokens <= len(t.tokens)
+//@ spec tokInBounds(tok token.Token, in *ast.Input) bool = tok.Literal.Start <= tok.Literal.End && tok.Literal.End <= in.Length
+
+//@ func Tokenizer.read
+//@   requires tkInv(t)
+//@   ensures tkInv(t)
+//@   ensures t.currentToken >= old(t.currentToken)
+//@   ensures old(t.currentToken) + 1 < t.maxTokens ==> t.currentToken == old(t.currentToken) + 1 && result == t.tokens[t.currentToken]
+//@   ensures old(t.currentToken) + 1 >= t.maxTokens ==> t.currentToken == old(t.currentToken) && result.Keyword == keyword.EOF
+//@   modifies t.currentToken
+//@   safety nil
+
+//@ func Tokenizer.peek
+//@   requires tkInv(t) && 0 <= skip && skip <= 1
+//@   ensures t.currentToken + 1 + skip < t.maxTokens ==> result == t.tokens[t.currentToken + 1 + skip]
+//@   ensures t.currentToken + 1 + skip >= t.maxTokens ==> result.Keyword == keyword.EOF
+//@   pure
+//@   safety nil
+
+//@ func Tokenizer.Read
+//@   requires tkInv(t)
+//@   ensures tkInv(t)
+//@   ensures t.currentToken >= old(t.currentToken)
+//@   ensures result.Keyword != keyword.EOF ==> t.currentToken > old(t.currentToken)
+//@   modifies t.currentToken
+//@   safety nil
+
+//@ func Tokenizer.Peek
+//@   requires tkInv(t)
+//@   pure
+//@   safety nil
+
+//@ func Tokenizer.Tokenize
+//@   requires t != nil && t.lexer != nil && inputInv(input)
+//@   ensures tkInv(t) && t.currentToken == 0 - 1 && t.maxTokens == len(t.tokens)
+//@   ensures forall k in 0..len(t.tokens) :: tokInBounds(t.tokens[k], input)
+//@   modifies t.tokens, t.maxTokens, t.currentToken, t.lexer.input, input.InputPosition, input.TextPosition, elems(t.tokens)
+//@   safety nil
+//@   loop 0:
+//@     invariant t.lexer.input == input && inputInv(input)
+//@     invariant arr(t.tokens) == old(arr(t.tokens)) || fresh(t.tokens)
+//@     invariant forall k in 0..len(t.tokens) :: tokInBounds(t.tokens[k], input)
+//@     decreases input.Length - input.InputPosition
+
+//@ func Tokenizer.TokenizeWithLimits
+//@   requires t != nil && t.lexer != nil && inputInv(input)
+//@   ghost var g_nest int = 0
+//@   ghost var g_maxNest int = 0
+//@   ghost var g_fields int = 0
+//@   ghost var g_prevSpread bool = false
+//@   at call Lexer.Read: ghost g_fields = ite(result.Keyword == keyword.IDENT && g_nest > 0 && !g_prevSpread, g_fields + 1, g_fields)
+//@   at call Lexer.Read: ghost g_nest = ite(result.Keyword == keyword.LBRACE, g_nest + 1, ite(result.Keyword == keyword.RBRACE, g_nest - 1, g_nest))
+//@   at call Lexer.Read: ghost g_maxNest = ite(g_nest > g_maxNest, g_nest, g_maxNest)
+//@   at call Lexer.Read: ghost g_prevSpread = ite(result.Keyword == keyword.SPREAD, true, ite(result.Keyword == keyword.LBRACE || result.Keyword == keyword.RBRACE || result.Keyword == keyword.IDENT, false, g_prevSpread))
+//@   ensures {limits.depth} result1 == nil && limits.MaxDepth > 0 ==> g_maxNest <= limits.MaxDepth
+//@   ensures {limits.fields} result1 == nil && limits.MaxFields > 0 ==> g_fields <= limits.MaxFields
+//@   ensures result1 == nil ==> tkInv(t) && t.currentToken == 0 - 1 && t.maxTokens == len(t.tokens)
+//@   ensures result1 == nil ==> (forall k in 0..len(t.tokens) :: tokInBounds(t.tokens[k], input))
+//@   modifies t.tokens, t.maxTokens, t.currentToken, t.lexer.input, input.InputPosition, input.TextPosition, elems(t.tokens)
+//@   safety nil
+//@   loop 0:
+//@     invariant t.lexer.input == input && inputInv(input)
+//@     invariant arr(t.tokens) == old(arr(t.tokens)) || fresh(t.tokens)
+//@     invariant forall k in 0..len(t.tokens) :: tokInBounds(t.tokens[k], input)
+//@     invariant {depth.covers.nesting} globalDepth >= g_nest && localDepth >= g_nest && g_maxNest >= g_nest
+//@     invariant {fields.cover.identifiers} fieldsCount >= g_fields && lastWasSpread == g_prevSpread
+//@     invariant 0 <= localDepthPeak && localDepth <= localDepthPeak && localDepthPeak <= len(t.tokens)
+//@     invariant globalDepth - localDepth + localDepthPeak <= len(t.tokens)
+//@     invariant 0 - len(t.tokens) <= globalDepth && 0 - len(t.tokens) <= localDepth
+//@     invariant 0 <= fieldsCount && fieldsCount <= len(t.tokens)
+//@     invariant limitDepth ==> g_maxNest <= limits.MaxDepth
+//@     invariant limitFields ==> fieldsCount <= limits.MaxFields
+//@     invariant limitDepth == (limits.MaxDepth > 0) && limitFields == (limits.MaxFields > 0)
+//@     decreases input.Length - input.InputPosition
